@@ -170,6 +170,9 @@ def fp_obligations(e, n):
     epsv = z3.FPVal(EPS, F)
     for (p, segs) in res:
         assum = fin + list(p.conds)
+        rc0, _, _ = e.check(assum, cap_ms=5000)
+        if rc0 == z3.unsat:
+            continue  # not a path of the function on finite knots (e.g. the NaN arm of a partial_cmp match)
         ok_shape = segs is not None and len(segs) == n - 1
         cls, widths = [], []
         if ok_shape:
@@ -233,7 +236,8 @@ def rounding_left_knot(e):
     try:
         dom = RealDomain(True)
         it = e.interp(dom)
-        fn = e.program.find("linear::segment")
+        fn = e.program.find_kernel("linear::segment", "linear", ["Knot", "Knot"], "Poly1")
+        funcs = [fn.name]
 
         def mk(d):
             return [Struct("Knot", [d.sym("x0"), d.sym("y0")]), Struct("Knot", [d.sym("x1"), d.sym("y1")])]
